@@ -73,8 +73,43 @@ theorem openBody_eq (cfg : Config) (d0 : Disk) (e1 : List Ev) (pre : Bool) (acc 
   · intro m sc h
     exact ite_snd_ok _ _ _ _ _ _ _ h
 
+theorem ite_pair_snd {α β : Type} (c : Prop) [Decidable c] (a b : α) (x y : β) :
+    (if c then (a, x) else (b, y)).2 = if c then x else y := by split <;> rfl
+
+/-- the result of `openBody` once the settings gate and the replay have succeeded: the scan of the
+    final disk decides between the new handle and an integrity error -/
+theorem openBody_result (cfg : Config) (d0 : Disk) (e1 : List Ev) (pre : Bool) (acc : ReplayAcc)
+    (hg : settingsGate cfg d0 = .ok (e1, pre))
+    (hl : logical H cfg.kind (d0.applyAll e1) = .ok acc)
+    (ck : List Ev × Mem)
+    (hck : ck = (if acc.replayed > 0 then checkpointScript .afterReplay
+                  { cfg := cfg, idx := acc.idx, next := acc.highest + 1, active := none, preCreated := pre }
+                  ((d0.applyAll e1).applyAll
+                    (if (d0.applyAll e1).has (.seg (segOf cfg.N (acc.highest + 1))) then []
+                     else [Ev.creat (.seg (segOf cfg.N (acc.highest + 1))) true,
+                           .sync (.seg (segOf cfg.N (acc.highest + 1)))]))
+                else ([], { cfg := cfg, idx := acc.idx, next := acc.highest + 1, active := none,
+                            preCreated := pre }))) :
+    (openBody H cfg d0).2 =
+      (if cfg.scan ∧ cfg.failOnIntegrity ∧
+          ((scanCanonical H cfg.verify ck.2.idx (d0.applyAll (openBody H cfg d0).1)).missing ≠ [] ∨
+           (scanCanonical H cfg.verify ck.2.idx (d0.applyAll (openBody H cfg d0).1)).corrupted ≠ [])
+       then .error (.integrity
+          (scanCanonical H cfg.verify ck.2.idx (d0.applyAll (openBody H cfg d0).1)).missing.length
+          (scanCanonical H cfg.verify ck.2.idx (d0.applyAll (openBody H cfg d0).1)).corrupted.length)
+       else .ok (ck.2, scanCanonical H cfg.verify ck.2.idx (d0.applyAll (openBody H cfg d0).1))) := by
+  obtain ⟨ck', hck', hev, _⟩ := openBody_eq H cfg d0 e1 pre acc hg hl
+  have : ck' = ck := by rw [hck', hck]
+  subst this
+  rw [hev]
+  unfold openBody
+  simp only [hg, hl]
+  rw [← hck]
+  simp only [Disk.applyAll_append]
+  exact ite_pair_snd _ _ _ _ _
+
 /-- **open, event by event.** -/
-theorem open_sim (so : StrictOrder kind.lt) (hH : Hash32 H) (cfg : Config) (hk : cfg.kind = kind)
+theorem open_sim_full (so : StrictOrder kind.lt) (hH : Hash32 H) (cfg : Config) (hk : cfg.kind = kind)
     (hn : cfg.N = N) (sys : Sys (KMap Bytes) Bytes) (hist : Recs Bytes) (d0 : Disk)
     (c : DCfg H kind sz N sys hist d0) (hdown : sys.up = false)
     (e1 : List Ev) (pre : Bool) (hg : settingsGate cfg d0 = .ok (e1, pre))
@@ -84,7 +119,15 @@ theorem open_sim (so : StrictOrder kind.lt) (hH : Hash32 H) (cfg : Config) (hk :
       AllPre (Recoverable H kind sz N [hist]) d0 (openBody H cfg d0).1 ∧
       ∃ m sys', (∀ m' sc, (openBody H cfg d0).2 = .ok (m', sc) → m' = m) ∧
         m.idx.map = acc.idx.map ∧ m.next = acc.highest + 1 ∧
-        Tied H kind sz N m sys' hist (d0.applyAll (openBody H cfg d0).1) := by
+        Tied H kind sz N m sys' hist (d0.applyAll (openBody H cfg d0).1) ∧
+        (openBody H cfg d0).2 =
+          (if cfg.scan ∧ cfg.failOnIntegrity ∧
+              ((scanCanonical H cfg.verify m.idx (d0.applyAll (openBody H cfg d0).1)).missing ≠ [] ∨
+               (scanCanonical H cfg.verify m.idx (d0.applyAll (openBody H cfg d0).1)).corrupted ≠ [])
+           then .error (.integrity
+              (scanCanonical H cfg.verify m.idx (d0.applyAll (openBody H cfg d0).1)).missing.length
+              (scanCanonical H cfg.verify m.idx (d0.applyAll (openBody H cfg d0).1)).corrupted.length)
+           else .ok (m, scanCanonical H cfg.verify m.idx (d0.applyAll (openBody H cfg d0).1))) := by
   have hfree := settingsGate_free cfg d0 e1 pre hg
   have c1 := c.freeAll H kind sz N sys hist d0 e1 hfree
   have pre1 : AllPre (Recoverable H kind sz N [hist]) d0 e1 := by
@@ -98,6 +141,7 @@ theorem open_sim (so : StrictOrder kind.lt) (hH : Hash32 H) (cfg : Config) (hk :
   obtain ⟨acc, hl, hrun, hinv, hhi, hsv, hlp, hrec⟩ := c1.recovers H hH kind so sz N sys hist _
   have hl' : logical H cfg.kind (d0.applyAll e1) = .ok acc := by rw [hk]; exact hl
   obtain ⟨ck, hck, hev, hmem⟩ := openBody_eq H cfg d0 e1 pre acc hg hl'
+  have hres := openBody_result H cfg d0 e1 pre acc hg hl' ck hck
   -- the machine opens
   have hact : act (stepM kind) N sys .open_ = some
       { sys with up := true, st := acc.idx.map, next := acc.highest + 1 } := by
@@ -147,7 +191,7 @@ theorem open_sim (so : StrictOrder kind.lt) (hH : Hash32 H) (cfg : Config) (hk :
         (if (d0.applyAll e1).has (.seg (Ghost.segOf N sys1.next)) then []
          else [Ev.creat (.seg (Ghost.segOf N sys1.next)) true, .sync (.seg (Ghost.segOf N sys1.next))]))
       t0 hs1 hs2 [hist] (by simp)
-    refine ⟨acc, hl, hrun, hhi, ?_, ck.2, sys3, hmem, ?_, ?_, ?_⟩
+    refine ⟨acc, hl, hrun, hhi, ?_, ck.2, sys3, hmem, ?_, ?_, ?_, hres⟩
     · rw [hev, hck]
       exact allPre_append _ _ _ _ (allPre_append _ _ _ _ pre1 pre2) (by
         rw [Disk.applyAll_append d0 e1]; exact pre3)
@@ -160,7 +204,7 @@ theorem open_sim (so : StrictOrder kind.lt) (hH : Hash32 H) (cfg : Config) (hk :
     · rw [hev, hck, Disk.applyAll_append d0 (e1 ++ _), Disk.applyAll_append d0 e1]
       exact t3
   · rw [if_neg hrep] at hck
-    refine ⟨acc, hl, hrun, hhi, ?_, ck.2, sys2, hmem, by rw [hck], by rw [hck], ?_⟩
+    refine ⟨acc, hl, hrun, hhi, ?_, ck.2, sys2, hmem, by rw [hck], by rw [hck], ?_, hres⟩
     · rw [hev, hck]
       simp only [List.append_nil]
       exact allPre_append _ _ _ _ pre1 pre2
@@ -175,6 +219,22 @@ namespace CasModel
 open Ghost
 
 variable (H : Bytes → Bytes) (kind : KeyKind) (sz : Bytes → Nat) (N : Nat)
+
+/-- **open, event by event** (without the shape of the result) -/
+theorem open_sim (so : StrictOrder kind.lt) (hH : Hash32 H) (cfg : Config) (hk : cfg.kind = kind)
+    (hn : cfg.N = N) (sys : Sys (KMap Bytes) Bytes) (hist : Recs Bytes) (d0 : Disk)
+    (c : DCfg H kind sz N sys hist d0) (hdown : sys.up = false)
+    (e1 : List Ev) (pre : Bool) (hg : settingsGate cfg d0 = .ok (e1, pre))
+    (hsave : ∀ a, logical H kind (d0.applyAll e1) = .ok a → SaveOK kind a.idx ∧ a.highest + 1 < U64) :
+    ∃ acc, logical H kind (d0.applyAll e1) = .ok acc ∧
+      run (stepM kind) [] hist = .ok acc.idx.map ∧ (∀ e ∈ hist, e.1 ≤ acc.highest) ∧
+      AllPre (Recoverable H kind sz N [hist]) d0 (openBody H cfg d0).1 ∧
+      ∃ m sys', (∀ m' sc, (openBody H cfg d0).2 = .ok (m', sc) → m' = m) ∧
+        m.idx.map = acc.idx.map ∧ m.next = acc.highest + 1 ∧
+        Tied H kind sz N m sys' hist (d0.applyAll (openBody H cfg d0).1) := by
+  obtain ⟨acc, a, b, c', d', m, sys', e, f, g, h, _⟩ :=
+    open_sim_full H kind sz N so hH cfg hk hn sys hist d0 c hdown e1 pre hg hsave
+  exact ⟨acc, a, b, c', d', m, sys', e, f, g, h⟩
 
 /-- the process dies (or the handle is dropped): memory is gone, the disk configuration stays -/
 theorem DCfg.crash (sys : Sys (KMap Bytes) Bytes) (hist : Recs Bytes) (d : Disk)
